@@ -29,19 +29,28 @@ ANCHORS = [
       "PipeFunc.__setstate__", "PipeFunc.__call__", "NestedPipeFunc", "_NestedFuncWrapper",
       "_prepend_name_with_scope", "_rename_output_name", "_validate_identifier"]),
 ]
-RULE = ("pipegen pipelines (1..5 structural functions: nullary / tuple-output functions, shared parameters, defaults, "
-        "bound values, parameter renames) x compositions of 1..3 rewrites (copy, cloudpickle round trip, join / |, "
-        "update_renames incl. swaps and dotted names, update_scope with '*' / subsets / exclude and its removal, "
-        "nest_funcs, simplified_pipeline, split_disconnected) x every retained output x keyword sets (root arguments "
-        "of the original and of the rewritten pipeline, defaults omitted, supplied intermediates, surplus / missing) x "
-        "dotted / nested-dict / mixed calling conventions; non-trivial = a rewrite that changes names or structure on a "
-        "pipeline with >= 2 functions; distinct by (pipeline, ops, calls)")
-ASSUMPTIONS = ["Python object identity / aliasing is represented by the heap model Rewrite.Alias and validated by the probes",
-               "cloudpickle round trips are trusted to reproduce the pickled state",
+RULE = ("(1) rewrite cases: pipegen pipelines (1..5 structural functions: nullary / tuple-output functions, shared "
+        "parameters, defaults, bound values, parameter renames) x compositions of 1..3 rewrites (copy, cloudpickle round "
+        "trip, join / |, update_renames incl. swaps and dotted names, update_scope with '*' / subsets / exclude and its "
+        "removal, nest_funcs, simplified_pipeline, split_disconnected) x every retained output x keyword sets (root "
+        "arguments of the original and of the rewritten pipeline, defaults omitted, supplied intermediates, surplus / "
+        "missing) x dotted / nested-dict / mixed calling conventions under pipeline(...), and Pipeline.map on all root "
+        "arguments; (2) map cases: mapgen requests (no internal axes) x {copy, pickle, update_renames, update_scope, "
+        "add_mapspec_axis with 1..3 stacked values of 1..2 parameters, simplified_pipeline} under map(storage='dict', "
+        "parallel=False); (3) aliasing probes: rewrite, then a mutation (update_defaults, update_bound, update_renames, "
+        "drop; add_mapspec_axis on MapSpec pipelines) of one side, state of the other side before / after; a family of "
+        "pipelines with a shared dependency (known finding). non-trivial = a rewrite that changes names or structure on a "
+        "pipeline with >= 2 functions, or any map / probe case that is not a bare copy; distinct by the whole case")
+ASSUMPTIONS = ["Python object identity / aliasing is represented by the heap model Model/Alias.v and validated by the probes",
+               "cloudpickle round trips are trusted to reproduce the pickled state (the model of pickle is the identity)",
                "values are strings (structural bodies); user functions do not raise",
-               "renamings are one-to-one on the names of the pipeline (the domain of the property)"]
-TRUSTED = ["Model/Rewrite.v mirrors the rewrite methods of Pipeline / PipeFunc / NestedPipeFunc / _simplify.py by hand; "
-           "tie = per-run differential execution", "harness/symfuncs.py, harness/pipegen.py (structural bodies, builders)"]
+               "renamings are one-to-one on the names of the pipeline (the domain of the property)",
+               "map side: pipelines without internal axes; a parameter given a new axis is a scalar or is mapped by some "
+               "function; nest_funcs / join / split of MapSpec pipelines are not exercised"]
+TRUSTED = ["Model/Rewrite.v, Model/RewriteMap.v, Model/Alias.v mirror the rewrite methods of Pipeline / PipeFunc / "
+           "NestedPipeFunc / _simplify.py / _mapspec.py by hand; tie = per-run differential execution",
+           "Model/Pipe.v (C02) and Model/MapRun.v (C01) for the evaluation of the original pipelines",
+           "harness/symfuncs.py, pipegen.py, mapsym.py, mapgen.py (structural bodies, builders)"]
 
 
 # ------------------------------------------------------------------ Coq literals
